@@ -280,6 +280,14 @@ def obligations(tier):
                               bounds='micro-structure %s under a symbolic grid translation t in [0,2.509] along x; whole pipeline' % name,
                               claim_doc='His 2, Arg 5, Asn/Gln 2, Trp 1, amide 1 (not Pro / first residue); each H has one heavy neighbour at the tabulated length +-0.0009; H on one atom >= 0.5 A apart',
                               max_paths=5000, wall_s=170 if tier == 'quick' else 1200))
+    # 'the set of hydrogen positions is the same in every orientation': every constructed hydrogen (incl. sp3 C-H under
+    # --protonate-all) is compared between the structure and its shifted copy (shared with C04)
+    from .c04 import mk_translate
+    for name, ax, axn in ((('tri_ASP', (2,), 'z'), ('tri_ARG', (0,), 'x')) if tier == 'quick' else
+                          (('tri_ASP', (2,), 'z'), ('tri_ARG', (0,), 'x'), ('tri_HIS', (1,), 'y'), ('tri_LYS', (0,), 'x'), ('lig_KNI', (0,), 'x'), ('lig_MTX', (1,), 'y'))):
+        obs.append(Obligation('O4-hydrogen-set-pose-independent[%s,%s,protonate-all]' % (name, axn), mk_translate(name, ax, 0.0, 2.509, False, extra_args=['--protonate-all']), code=pipe,
+                              bounds='%s with --protonate-all vs. the same structure shifted by t = k/1000 along %s, t in [0,2.509] (changes the cell list and hence the bond-list order)' % (name, axn),
+                              claim_doc='same hydrogens per parent atom, positions within rounding of the shifted ones', max_paths=5000, wall_s=170 if tier == 'quick' else 1200))
     if tier == 'thorough':
         for name in ('tri_HIS', 'tri_ARG', 'tri_ASN'):
             for ri, r in enumerate(ROT24):
